@@ -1,4 +1,9 @@
-STREAMS = ["c15"]
+import os
+import core
+
+STREAMS = ["c15", "c15gw"]
+NEEDS_BINARY = True
+HARNESS_ARGS = ("-rdpgw", os.path.join(core.BUILD, "rdpgw"))
 RULE = ("real security.GenerateUserToken / UserInfo and web.TokenInfo with real go-jose: 5 user names (ASCII, non-ASCII, long) x "
         "both key modes; tokens minted in one mode verified in all four key configurations; tokens built under other encryption "
         "or signing keys, HS384, A256GCM, A256KW, without cty, other or missing issuer, expired around the leeway, without exp, "
